@@ -102,8 +102,54 @@ PROFILES = [
     act("Proportional", dict(DEG, sum_degrees="X Rat", activate="List Nat", ref="Nat"), loop_rename={2: {"rule": "ref"}}),
 ]
 
+# ---- FLD grid (Op.increment, FldExporter.write_from_scope)
+# `Op.increment` mutates the list `x` in place: the parameter `x0` initialises the local `x`, the recursive call
+# copies the callee's final `x` back (`inout`).  The digits are naturals; the maxima are integers because
+# `write_from_scope` computes them by subtraction (`values - 1` is -1 for `values = 0`).
+FLD_VAR = "Py.Fld.Var"
+PROFILES += [
+    {
+        "name": "Op_increment", "module": "fuzzylite.operation", "object": "Operation.increment", "file": "CodeFld",
+        "params": [("x0", "List Nat"), ("minimum", "List Nat"), ("maximum", "List Int"), ("position0", "Option Int")],
+        "init": {"x": "x0", "position": "position0"},
+        "locals": {"x": "List Nat", "position": "Option Int", "incremented": "Bool"},
+        "ret": "Bool",
+        "self_call": "Op.increment(_0, _1, _2, _3)", "rec_fuel": "x0.length + 1", "inout": {"x0": "x"},
+    },
+    {
+        # the call with `active_variables` given (the membership test is the field `active` of a variable); the
+        # floating-point guess of the root is an arbitrary function `guess values inputs`; the export itself
+        # (`self.write`) is outside: the observable is the list `input_values` of rows
+        "name": "write_from_scope", "module": "fuzzylite.exporter", "object": "FldExporter.write_from_scope", "file": "CodeFld",
+        "params": [("vars", f"List {FLD_VAR}"), ("values", "Nat"), ("allVariables", "Bool"), ("guess", "Nat → Nat → Nat")],
+        "skip_if": ["active_variables is None"],
+        "locals": {"inputs": "Nat", "root": "Int", "resolution": "Int", "sample_values": "List Nat", "min_values": "List Nat",
+                   "max_values": "List Int", "input_values": "List (List (X Rat))", "incremented": "Bool",
+                   "row": "List (X Rat)", "index": "Nat", "variable": FLD_VAR, "dx": "X Rat", "value": "X Rat"},
+        "fuel": {1: "Op.Fld.total (σ.max_values.map Int.toNat) + 1", 3: "σ.root.toNat + 1", 4: "values + 1"},
+        "externals": [
+            ("engine.input_variables", "vars", f"List {FLD_VAR}", True),
+            ("scope == FldExporter.ScopeOfValues.AllVariables", "allVariables", "Bool", True),
+            ("int(pow(_0, 1.0 / _1))", "(guess {0} {1})", "Nat", True, ["Nat", "Nat"]),
+            ("_0 in active_variables", "{0}.active", "Bool", True, [FLD_VAR]),
+            ("_0.drange", "{0}.drange", "X Rat", True, [FLD_VAR]),
+            ("_0.minimum", "{0}.minimum", "X Rat", True, [FLD_VAR]),
+            ("np.take(_0.value, -1).astype(float)", "{0}.value", "X Rat", True, [FLD_VAR]),
+        ],
+        "stmt_externals": [
+            # the call of the other translated function: its generated definition; `sample_values` is mutated in place
+            ("incremented = Op.increment(sample_values, min_values, max_values)",
+             "(Op_increment.run σ.sample_values σ.min_values σ.max_values none {{}} >>= fun r => Py.deref r.ret >>= fun v => "
+             ".ok {{ σ with sample_values := r.x, incremented := v }})", False),
+            ("self.write(engine, writer, np.array(input_values))", "σ", True),
+        ],
+    },
+]
+
 FILES = {
     "CodeRule": {"imports": ["FlVerif.Op.PyExt"]},
     "CodeFunction": {"imports": ["FlVerif.Op.PyExt"]},
     "CodeActivation": {"imports": ["FlVerif.Op.PyExtAct"]},
+    # ---- FLD grid
+    "CodeFld": {"imports": ["FlVerif.Op.PyExtFld"]},
 }
